@@ -99,6 +99,16 @@ M = [
  ("g-bound-dotdot-negated", ["C04:DM-bound-syntax"], BO, "        if input.peek(Token![..]) {", "        if !input.peek(Token![..]) {"),
  ("g-bound-pred-not-consumed", ["C04:DM-bound-syntax"], BO, "                input.advance_to(&fork);\n", ""),
  ("g-bound-type-error-swallowed", ["C04:DM-bound-syntax"], BO, "                } else {\n                    Err(e)\n                }", "                } else {\n                    Ok(Self::Default(Default::default()))\n                }"),
+ # sweep 7: questions the builders stopped asking (each check read "not asked" as "no"), receivers, places
+ ("s7-debug-ignore-unasked", ["C10:DM-debug-mode", "C03:ES-consulted"], IT, "            if !field.hattrs.is_debug_ignore() {", "            if true {"),
+ ("s7-default-mark-skip-first", ["C11:DM-default-select", "C03:ES-consulted"], IT, "        let vs: Vec<_> = variants\n            .iter()\n            .filter_map", "        let vs: Vec<_> = variants\n            .iter().skip(1)\n            .filter_map"),
+ ("s7-op-from-assign-unasked", ["C09:DM-forms"], II, "            if args.make_binary {\n                let this = this_orig;", "            if false {\n                let this = this_orig;"),
+ ("s7-assign-from-assign-accepted", ["C09:DM-forms"], II, "        OpForm::Assign => {\n            if args.make_assign {", "        OpForm::Assign => {\n            if false {"),
+ ("s7-negative-impl-accepted", ["C09:DM-forms"], II, "    if t.0.is_some() {", "    if false {"),
+ ("s7-nested-derive-ex-always", ["C04:ES-type-items-empty"], IT, "        let items = if kinds.derive_ex {", "        let items = if true {"),
+ ("s7-empty-enum-by-ref", ["C12:TP-zero-arm-match", "C20:TP-zero-arm-match"], IT, "        arms.push(quote!(#pat => #expr));\n    }\n    let wheres = wcb.build(|ty| quote!(#ty : #trait_));\n    // An empty enum must be matched by value: `match self {}` on a reference is not exhaustive.\n    let this = if variants.is_empty() {", "        arms.push(quote!(#pat => #expr));\n    }\n    let wheres = wcb.build(|ty| quote!(#ty : #trait_));\n    // An empty enum must be matched by value: `match self {}` on a reference is not exhaustive.\n    let this = if false {"),
+ ("s7-deref-mut-shared-receiver", ["C18:TP-signature", "C20:TP-signature"], IT, "fn deref_mut(&mut self) -> &mut #target_ty {", "fn deref_mut(&self) -> &mut #target_ty {"),
+ ("s7-enum-operand-is-reference", ["C17:TP-operand-place"], CO, '                let ident = field.make_ident("_this");\n                quote_spanned!(span=> (*#ident))', '                let ident = field.make_ident("_this");\n                quote_spanned!(span=> (#ident))'),
  # benign variants: every listed property must stay silent
  ("benign-eq-checker-impl-trait", [], CO, "fn _eq<T: ::core::cmp::Eq + ?::core::marker::Sized>(_this: &T) { }", "fn _eq(_this: &(impl ::core::cmp::Eq + ?::core::marker::Sized)) { }"),
  ("benign-rename-local", [], IT, "let use_bounds = e.push_bounds_to(&mut wcb);\n    let mut ctor_args = Vec::new();\n    let mut clone_from_exprs = Vec::new();", "let use_bounds = e.push_bounds_to(&mut wcb);\n    let mut ctor_args = Vec::new();\n    let mut clone_from_exprs = Vec::new();\n    let _unused_marker = 0;"),
